@@ -351,6 +351,12 @@ func init() {
 			}
 			return termFalse
 		},
+		// symSnapshot(v): a structural deep copy made by the engine itself (pointers,
+		// slices, maps followed; sharing inside v preserved), independent of any copy
+		// routine of the code under test.
+		"symSnapshot": func(p *Path, fr *frame, args []value) value {
+			return deepClone(args[0], map[interface{}]value{})
+		},
 		// symDecimal(v int64) / symUDecimal(v uint64): base-10 rendering
 		"symDecimal": func(p *Path, fr *frame, args []value) value {
 			t := args[0].(*Term)
